@@ -361,3 +361,141 @@ func flowsToArgOf(v ssa.Value, targets []ssa.Instruction) bool {
 	}
 	return false
 }
+
+// C12/position-recorded: a diagnostic that reports "the line of the offending declaration" through a position kept in the model
+// (`Line: f.Line`) is only as good as the code that filled that position in. For every diagnostic whose line is read from
+// Field.Line, every Field the parse phase constructs with an attribute of the kind the diagnostic is raised for (the type switch /
+// assertion on f.Attr that dominates it; any kind if there is none) must have its Line assigned from a non-constant value.
+func c12PositionRecorded(w *World, r *Report) {
+	const rule = "C12/position-recorded"
+	fns := parsePhaseFuncs(w)
+	type alloc struct {
+		al      *ssa.Alloc
+		fn      *ssa.Function
+		attr    string
+		hasLine bool
+	}
+	var allocs []alloc
+	for _, fn := range fns {
+		forEachInstr(fn, func(_ *ssa.BasicBlock, ins ssa.Instruction) {
+			al, ok := ins.(*ssa.Alloc)
+			if !ok || !al.Heap || modelTypeName(al.Type().(*types.Pointer).Elem()) != "Field" || al.Referrers() == nil {
+				return
+			}
+			a := alloc{al: al, fn: fn}
+			for _, ref := range *al.Referrers() {
+				fa, ok := ref.(*ssa.FieldAddr)
+				if !ok || fa.Referrers() == nil {
+					continue
+				}
+				_, fname, _, _ := fieldOf(fa)
+				for _, r2 := range *fa.Referrers() {
+					st, ok := r2.(*ssa.Store)
+					if !ok || st.Addr != ssa.Value(fa) {
+						continue
+					}
+					switch fname {
+					case "Attr":
+						if mi, ok := st.Val.(*ssa.MakeInterface); ok {
+							a.attr = modelTypeName(mi.X.Type())
+						} else if _, isConst := st.Val.(*ssa.Const); !isConst {
+							a.attr = "?"
+						}
+					case "Line":
+						if _, isConst := st.Val.(*ssa.Const); !isConst {
+							a.hasLine = true
+						}
+					}
+				}
+			}
+			allocs = append(allocs, a)
+		})
+	}
+	n := 0
+	seenKind := map[string]bool{}
+	for _, fn := range fns {
+		forEachInstr(fn, func(b *ssa.BasicBlock, ins ssa.Instruction) {
+			st, ok := ins.(*ssa.Store)
+			if !ok {
+				return
+			}
+			fa, ok := st.Addr.(*ssa.FieldAddr)
+			if !ok {
+				return
+			}
+			if tn, f, _, _ := fieldOf(fa); tn != "SyntaxError" || f != "Line" {
+				return
+			}
+			ld, ok := stripIdentity(st.Val).(*ssa.UnOp)
+			if !ok || ld.Op != token.MUL {
+				return
+			}
+			lfa, ok := ld.X.(*ssa.FieldAddr)
+			if !ok {
+				return
+			}
+			if tn, f, _, _ := fieldOf(lfa); tn != "Field" || f != "Line" {
+				return
+			}
+			holder := stripIdentity(lfa.X)
+			// the kind under which the diagnostic is raised
+			kind := "*"
+			forEachInstr(fn, func(b2 *ssa.BasicBlock, i2 ssa.Instruction) {
+				ta, ok := i2.(*ssa.TypeAssert)
+				if !ok || !ta.CommaOk {
+					return
+				}
+				l2, ok := stripIdentity(ta.X).(*ssa.UnOp)
+				if !ok || l2.Op != token.MUL {
+					return
+				}
+				afa, ok := l2.X.(*ssa.FieldAddr)
+				if !ok {
+					return
+				}
+				if tn, f, _, _ := fieldOf(afa); tn != "Field" || f != "Attr" || stripIdentity(afa.X) != holder {
+					return
+				}
+				if ta.Referrers() == nil {
+					return
+				}
+				for _, ref := range *ta.Referrers() {
+					ex, ok := ref.(*ssa.Extract)
+					if !ok || ex.Index != 1 || ex.Referrers() == nil {
+						continue
+					}
+					for _, r3 := range *ex.Referrers() {
+						if iff, ok := r3.(*ssa.If); ok && edgeDominates(iff.Block(), 0, b) {
+							kind = modelTypeName(ta.AssertedType)
+						}
+					}
+				}
+			})
+			if seenKind[kind] {
+				return
+			}
+			seenKind[kind] = true
+			n++
+			key := fmt.Sprintf("fields of kind %s are constructed with the line their diagnostics report", kind)
+			var missing []string
+			for _, a := range allocs {
+				if a.attr == "" {
+					continue // a stand-in that only carries a name
+				}
+				if kind != "*" && a.attr != kind && a.attr != "?" {
+					continue
+				}
+				if !a.hasLine {
+					missing = append(missing, fnKey(a.fn)+" ("+w.instrPos(a.al)+")")
+				}
+			}
+			if len(missing) == 0 {
+				r.pass(rule, key, w.instrPos(ins), "")
+			} else {
+				sort.Strings(missing)
+				r.fail(rule, key, w.instrPos(ins), "the diagnostic takes its line from Field.Line, but "+strings.Join(uniqStrings(missing), ", ")+" construct(s) such a field without assigning Line: the offence is reported at line 0")
+			}
+		})
+	}
+	r.note("%s: %d Field constructions, %d diagnostics read their line from Field.Line", rule, len(allocs), n)
+}
